@@ -4,6 +4,8 @@
 // the same segment; after EVERY call all lines must still be intact doubly-linked chains of the same slots.
 #include "common/corpus.hpp"
 #include "common/segcheck.hpp"
+#include "inc/Face.h"
+#include "inc/Silf.h"
 using namespace vf;
 
 struct JCase { int font; int text; int dir; int wf; };
@@ -23,6 +25,8 @@ static void setup(Runner &r, const Tier &t) {
         g_fonts.push_back(f.font);
         if (f.corpus.empty()) g_texts.push_back({ "ab c de", "a\xCC\x81 b c\xCC\x80\xCC\x81 d", "cc ab" });
         else g_texts.push_back(pick_texts(f.corpus, t.thorough ? 6 : 3, 5, t.thorough ? 12 : 9));
+        // a line that ends in marks (exercises reverseSlots' mark handling at a line end)
+        if (f.font == "Awami_test.ttf") g_texts.back().push_back("\xd9\xbe\xd8\xb3\xd8\xaa\xd9\x8a\xd9\x94 | \xd8\xba\xd9\x84\xd9\x8a\xd9\x94");
         int fi = int(g_fonts.size()) - 1;
         for (int ti = 0; ti < int(g_texts[fi].size()); ++ti) for (int dir = 0; dir < 8; ++dir) for (int wf = 0; wf < 2; ++wf) g_cases.push_back({ fi, ti, dir, wf });
     }
@@ -73,10 +77,11 @@ static void setup(Runner &r, const Tier &t) {
                 float ret = gr_seg_justify(seg, V[0], font, widths[wi], gr_justFlags(fl), pf, pl); ++calls; ++step;
                 if (!std::isfinite(ret)) why = "returned width not finite";
                 if (!why.empty() || !intact(why)) {
-                    int fontdir = -1; { /* font direction as observable: whether an RTL request equals slot order */ }
+                    const graphite2::Silf *sf = static_cast<const graphite2::Face*>(face)->chooseSilf(0); int fontdir = sf ? (sf->dir() & 1) : 0;
                     JObj o; o.kv("api", "gr_seg_justify").kv("font", g_fonts[c.font]).kv("text_utf8_hex", hex(txt.data(), txt.size())).kv("dir", c.dir).kv("dir_rtl", c.dir & 1).kv("with_font", c.wf).kv("mask", mask)
-                        .kv("lines", (unsigned long long)lines.size()).kv("line", (unsigned long long)L).kv("width_index", wi).kv("width_nonneg", wi != 0).kv("flags", fl).kv("subrange", sr).kv("calls_before", step - 1).kv("line_ends", line_ends).kv("kind", "stream_corrupted").kv("why", why);
-                    (void)fontdir; report_fail(ci, o); failed = true; }
+                        .kv("lines", (unsigned long long)lines.size()).kv("line", (unsigned long long)L).kv("width_index", wi).kv("width_nonneg", wi != 0).kv("flags", fl).kv("subrange", sr).kv("calls_before", step - 1).kv("line_ends", line_ends).kv("kind", "stream_corrupted").kv("why", why)
+                        .kv("font_rtl", fontdir).kv("paragraph_dir_differs_from_font_dir", (c.dir & 1) != fontdir).kv("multi_line", lines.size() > 1);
+                    report_fail(ci, o); failed = true; }
             }
             // destroy must still release the whole segment: re-join nothing, just destroy; allocation balance decides
             gr_seg_destroy(seg);
